@@ -86,6 +86,7 @@ class SslRecord(ParsableBase):
 
         if record_length > parser.unparsed_length:
             raise NotEnoughData(record_length - parser.unparsed_length)
+        header_length = parser.parsed_length
 
         try:
             parser.parse_numeric('message_type', 1, SslMessageType)
@@ -94,6 +95,8 @@ class SslRecord(ParsableBase):
 
         parser.parse_variant('message', SslSubprotocolMessageParser(parser['message_type']))
         parser.parse_raw('padding', padding_length)
+        if parser.parsed_length != header_length + record_length:
+            raise InvalidValue(record_length, SslRecord, 'record_length')
 
         return SslRecord(message=parser['message']), parser.parsed_length
 
